@@ -470,6 +470,72 @@ fn main() {
         },
     );
     {
+        // f64 dividend and divisor each scaled by a power of two up to 2^+-600 (products of two coefficients leave the range, every
+        // quotient coefficient is representable): the identity is judged on the unscaled twins after exact unscaling
+        let il = [0.0f64, 1.0, -1.0, 2.0, -3.0];
+        let scales = [2f64.powi(-600), 2f64.powi(-520), 1.0, 2f64.powi(520), 2f64.powi(600)];
+        let nu = count_vecs(1, ctx.pick(4, 5), 5);
+        let nv = count_vecs(1, 3, 5);
+        let per = 25u64;
+        ctx.lattice(
+            "f64 at extreme scale: dividends of length 1..4(5) x divisors of length 1..3 over {0,+-1,2,-3}, each side scaled by {2^-600,2^-520,1,2^520,2^600} (representable quotients)",
+            nu * nv * per,
+            |idx| format!("u0={:?} v0={:?} scales#{}", vec_from_idx(idx / per / nv, 1, &il), vec_from_idx(idx / per % nv, 1, &il), idx % per),
+            |idx, acc| {
+                let u0 = vec_from_idx(idx / per / nv, 1, &il);
+                let v0 = vec_from_idx(idx / per % nv, 1, &il);
+                let su = scales[(idx % per) as usize / 5];
+                let sv = scales[(idx % per) as usize % 5];
+                if (su.log2() - sv.log2()).abs() > 1000.0 || *v0.last().unwrap() == 0.0 {
+                    return;
+                }
+                let key = || format!("f64 scaled u0={:?} v0={:?} su={:e} sv={:e}", u0, v0, su, sv);
+                let res = catch(|| -> Result<(), String> {
+                    let pu = Polynomial::new(u0.iter().map(|c| c * su).collect::<Vec<f64>>());
+                    let pv = Polynomial::new(v0.iter().map(|c| c * sv).collect::<Vec<f64>>());
+                    let (q, rm) = pu.polydiv(&pv).map_err(|e| format!("Err({}) although the divisor has a non-zero leading coefficient", e))?;
+                    let qc: Vec<f64> = coeffs_of(&q).iter().map(|c| c / su * sv).collect();
+                    let rc: Vec<f64> = coeffs_of(&rm).iter().map(|c| c / su).collect();
+                    ensure!(qc.iter().chain(rc.iter()).all(|c| c.is_finite()), "quotient {:?} / remainder {:?} not finite", coeffs_of(&q), coeffs_of(&rm));
+                    let n = (qc.len() + v0.len()).max(rc.len()).max(u0.len()) + 1;
+                    let (mut worst, mut scale) = (0.0f64, 0.0f64);
+                    for k in 0..n {
+                        let mut s = if k < u0.len() { u0[k] } else { 0.0 };
+                        let mut sc = s.abs();
+                        for i in 0..qc.len() {
+                            if k >= i && k - i < v0.len() {
+                                s -= qc[i] * v0[k - i];
+                                sc += (qc[i] * v0[k - i]).abs();
+                            }
+                        }
+                        if k < rc.len() {
+                            s -= rc[k];
+                            sc += rc[k].abs();
+                        }
+                        worst = worst.max(s.abs());
+                        scale = scale.max(sc);
+                    }
+                    let rel = if scale == 0.0 { 0.0 } else { worst / scale };
+                    ensure!(rel <= 1e-12, "f64 (scaled {:e} / {:e}) u - (q*v + r) has relative size {:e}; q = {:?}, r = {:?}", su, sv, rel, coeffs_of(&q), coeffs_of(&rm));
+                    let mut rl = rc.len();
+                    while rl > 0 && rc[rl - 1] == 0.0 {
+                        rl -= 1;
+                    }
+                    ensure!(rl == 0 || rl < v0.len(), "f64 (scaled): deg r = {} is not below deg v = {}", rl - 1, v0.len() - 1);
+                    Ok(())
+                });
+                if su != 1.0 || sv != 1.0 {
+                    acc.nontriv("f64 division at extreme scale judged");
+                }
+                match res {
+                    Ok(Ok(())) => {}
+                    Ok(Err(e)) => acc.fail(idx, key(), e),
+                    Err(p) => acc.fail(idx, key(), format!("unexpected panic: {}", p)),
+                }
+            },
+        );
+    }
+    {
         // every dividend / divisor pair of the small complex lattice, each scaled by a power of two up to 2^+-480
         let c5 = vec![Cmplx::new(0., 0.), Cmplx::new(1., 0.), Cmplx::new(0., 1.), Cmplx::new(-1., 2.), Cmplx::new(3., -1.)];
         let scales = [2f64.powi(-480), 2f64.powi(-340), 1.0, 2f64.powi(342), 2f64.powi(480)];
